@@ -40,10 +40,23 @@ type T3 struct {
 	G     int       `a:"ge=7|a-G"`
 }
 
+// RA and RB refer to each other: analysing one type must not depend on the cache retaining the other.
+type RA struct {
+	F string `a:"to=1~2|a-RAF" b:"to=1~5|b-RAF"`
+	B *RB    `a:"exist" b:"required|b-RAB"`
+}
+
+type RB struct {
+	G int   `a:"le=3|a-RBG" b:"ge=9|b-RBG"`
+	A *RA   `a:"exist" b:"exist"`
+	L []*RA `a:"exist" b:"exist"`
+}
+
 var values = []interface{}{
 	&T1{F: "abc", G: 5},
 	&T2{F: "", G: 5, N: &T1{F: "abc", G: 5}},
 	&T3{F: "", L: []T1{{F: "abcdef", G: 12}}, G: 5},
+	&RA{F: "abc", B: &RB{G: 5, A: &RA{F: "abcdefg"}, L: []*RA{nil, {F: "x", B: &RB{G: 5}}}}},
 }
 
 type call struct {
@@ -64,7 +77,7 @@ var overrideRM = map[string]string{"F": "eq=9|ovr-F"}
 
 func calls() []call {
 	var out []call
-	for ty := 0; ty < 3; ty++ {
+	for ty := 0; ty < len(values); ty++ {
 		for _, tag := range []string{"a", "b"} {
 			for _, ov := range []bool{false, true} {
 				out = append(out, call{ty, tag, ov})
@@ -309,6 +322,59 @@ func run(c *runner.Ctx) {
 	}
 	if !defaultMode {
 		spuriousMisses(c, d, all, expect, 3)
+		lateRegistration(c, d)
+	}
+}
+
+var lateSeq int
+
+// lateRegistration: the global function table changes between two validations of one type (a name that was unknown is
+// registered). What a call resolves is the table at call time, whatever the cache kept about the type: the history
+// "validate, register, validate" gives the same results on every cache configuration (always-miss included).
+func lateRegistration(c *runner.Ctx, d *deleg) {
+	c.Space(c.Mode + ":late-registration")
+	for _, cf := range cfgs {
+		for _, warmTag := range []bool{false, true} {
+			if !c.Take() {
+				continue
+			}
+			lateSeq++
+			name := fmt.Sprintf("late%d", lateSeq*64+c.Worker)
+			st := reflect.StructOf([]reflect.StructField{
+				{Name: "F", Type: reflect.TypeOf(""), Tag: reflect.StructTag(`a:"` + name + `,le=3|a-F" b:"le=2|b-F,` + name + `"`)},
+				{Name: "N", Type: reflect.TypeOf(0), Tag: `a:"ge=7|a-N" b:"ge=9|b-N"`},
+			})
+			p := reflect.New(st)
+			p.Elem().Field(0).SetString("toolong")
+			p.Elem().Field(1).SetInt(8)
+			d.inner, d.loads, d.missAt = cf.mk(), 0, nil
+			call := func(tag string) string {
+				err := valid.ValidateStruct(p.Interface(), tag)
+				if err == nil {
+					return ""
+				}
+				return err.Error()
+			}
+			if warmTag {
+				_ = call("b")
+			}
+			unknown := `valid "` + name + `" is not exist, You can call SetValidFn`
+			type step struct{ what, got, want string }
+			steps := []step{{"a before registration", call("a"), unknown + `; "F" input "toolong", explain: a-F`}}
+			valid.SetCustomerValidFn(name, func(errBuf *strings.Builder, validName, objName, fieldName string, tv reflect.Value) {
+				errBuf.WriteString(valid.GetJoinValidErrStr(objName, fieldName, tv.String(), valid.ExplainEn, "global-"+name))
+			})
+			steps = append(steps, step{"a after registration", call("a"), `"F" input "toolong", explain: global-` + name + `; "F" input "toolong", explain: a-F`},
+				step{"b after registration", call("b"), `"F" input "toolong", explain: b-F; "F" input "toolong", explain: global-` + name + `; "N" input "8", explain: b-N`},
+				step{"a again", call("a"), `"F" input "toolong", explain: global-` + name + `; "F" input "toolong", explain: a-F`})
+			c.Done(true, len(steps))
+			for _, s := range steps {
+				if s.got != s.want {
+					c.Violation("result-depends-on-when-the-type-was-first-seen", map[string]interface{}{"config": cf.name, "warmed_under_other_tag": warmTag, "step": s.what, "expected": s.want, "actual": s.got})
+					break
+				}
+			}
+		}
 	}
 }
 
@@ -379,9 +445,9 @@ func main() {
 	runner.Main(runner.Config{
 		Property:  "C08",
 		Technique: "explicit enumeration of all call histories up to a depth x cache configurations x start states on the real code vs pure-function model (cross-configuration differential)",
-		Rule: "calls = 3 types (nested, time.Time fields) x tag names {a,b} (different rules per tag on the same fields; the value violates the a-rules on one field and the b-rules on another) x {tag rules, per-call override of the shared field}; " +
+		Rule: "calls = 4 types (nested, time.Time fields, a pair of mutually recursive types) x tag names {a,b} (different rules per tag on the same fields; the value violates the a-rules on one field and the b-rules on another) x {tag rules, per-call override of the shared field}; " +
 			"all sequences of length d (3 quick, 4 thorough) from 3 start states (cold, warmed under the other tag / with overrides, warmed then flushed by capacity+1 filler types) on 8 cache configurations switched in-process, plus, for the bounded LRUs of capacity 1,2,3,8, the start states churn-r (r = 1..2*capacity+3 evictions before the sequence: every position of the LRU's internal map rebuild relative to the next d calls) " +
-			"and on the untouched package default (separate worker set); and every depth-3 sequence on LRU(1), LRU(2), LRU(512), sync.Map with one (thorough: one or two) of its cache loads answered with a miss although the entry is present (the answer a concurrent eviction produces); every call compared with walk(type, tag, override, value); states = (configuration, per-type last tag) ; non-trivial = a type re-validated under the other tag",
+			"and on the untouched package default (separate worker set); and every depth-3 sequence on LRU(1), LRU(2), LRU(512), sync.Map with one (thorough: one or two) of its cache loads answered with a miss although the entry is present (the answer a concurrent eviction produces); and the history (validate, register a global function for a name the type uses, validate) on every configuration; every call compared with walk(type, tag, override, value); states = (configuration, per-type last tag) ; non-trivial = a type re-validated under the other tag",
 		Assumptions: []string{"walk model internal/walk", "the global cache is replaced through the public SetStructTypeCache only"},
 		Run:         run,
 		Modes:       []runner.Mode{{Name: "inproc"}, {Name: "default", Workers: 8}},
